@@ -48,15 +48,17 @@ def padLeft (width : Nat) (s : List Char) : List Char := spaces (width - s.lengt
 /-- every line body followed by a line feed (`writeln!`) -/
 def unlines (ls : List (List Char)) : List Char := ls.flatMap (· ++ ['\n'])
 
+/-- a piece that ended in a line feed, without one trailing carriage return; `cur` is the piece, reversed -/
+def stripCrRev : List Char → List Char
+  | '\r' :: cur' => cur'.reverse
+  | cur => cur.reverse
+
 /-- worker of `rustLines`: `cur` is the current piece, reversed -/
 def rustLinesAux : List Char → List Char → List (List Char)
   | [], [] => []
   | [], c :: cur => [(c :: cur).reverse]
   | c :: cs, cur =>
-    if c = '\n' then
-      (match cur with
-        | '\r' :: cur' => cur'.reverse
-        | _ => cur.reverse) :: rustLinesAux cs []
+    if c = '\n' then stripCrRev cur :: rustLinesAux cs []
     else rustLinesAux cs (c :: cur)
 
 /-- `str::lines()`: `split_inclusive('\n')`, then one trailing `\n` and (only then) one trailing `\r` are stripped
@@ -272,6 +274,30 @@ def printEntryG (cx : Ctx) (e : Entry) : List Char := unlines (entryLines cx e)
 
 /-- `FormatOptions::format` after parsing: `writeln!(w, "{}", ctx.as_display(&entry))` for every entry -/
 def formatEntriesG (cx : Ctx) (es : List Entry) : List Char := es.flatMap (fun e => printEntryG cx e ++ ['\n'])
+
+/-- `format::FormatError` (`IO` is not modelled: reading and writing are assumed to succeed) -/
+inductive FormatErr (ε : Type) where
+  | parse (e : ε)
+  | unsupportedRecursive
+  deriving Repr, DecidableEq
+
+/-- the loop of `FormatOptions::format` over what `parse_ledger` yields: every entry is written as soon as it is parsed;
+the first parse error ends the loop (`parsed?`), and what has been written stays written. -/
+def formatResults {ε : Type} (cx : Ctx) : List (Except ε Entry) → List Char × Option ε
+  | [] => ([], none)
+  | .error e :: _ => ([], some e)
+  | .ok en :: rest =>
+    let r := formatResults cx rest
+    (printEntryG cx en ++ '\n' :: r.1, r.2)
+
+/-- `FormatOptions::format` (and `cli/src/format.rs::format`, which calls it with `recursive(false)`): the text written
+and the error returned, if any -/
+def formatOptionsFormat {ε : Type} (cx : Ctx) (recursive : Bool) (parsed : List (Except ε Entry)) :
+    List Char × Option (FormatErr ε) :=
+  if recursive then ([], some .unsupportedRecursive)
+  else
+    let r := formatResults cx parsed
+    (r.1, r.2.map .parse)
 
 /-! ## The width table (`unicode-width 0.2.0`, `width_cjk`) for the characters the generators use
 
